@@ -379,10 +379,10 @@ def oracleC10 (nc : NumCodec) (text : String) (c : Json) (implRead : Outcome Dif
   | .panic, _ | _, .panic => "fail panic"
   | .ok _, .ok r =>
     (match parseJson nc text with
-     | none => "fail jd read a text that is not JSON"
+     | none => "fail jd applied a patch RFC 6902 rejects (the text is not JSON)"
      | some doc =>
        match opsOfJson doc with
-       | none => "fail jd read a document that is not a well-formed JSON Patch"
+       | none => "fail jd applied a patch RFC 6902 rejects (the text is not a well-formed JSON Patch document: an array of objects with string op and path members, and a value member on add / test)"
        | some ops =>
          match eval c ops with
          | none => "fail jd applied the patch but RFC 6902 evaluation fails (jd is more permissive)"
